@@ -153,6 +153,10 @@ func (s singleSymmetricKeySealer) Unseal(u *url.URL) (*url.URL, error) {
 		return nil, fmt.Errorf("internal error: error making gcm mode opener with key: %w", err)
 	}
 
+	if len(nonce) != aesgcm.NonceSize() {
+		return nil, errors.New("bad request: nonce has an invalid length")
+	}
+
 	reqStr := q.Get("req")
 	reqBytes, err := base64.RawURLEncoding.DecodeString(reqStr)
 	if err != nil {
